@@ -57,6 +57,9 @@ type found struct {
 	count int
 	crash string
 	hash  uint64
+	// alts: further runs with the same violation, tried if this one does not
+	// reproduce from its trace
+	alts []*found
 }
 
 func newAgg() *agg {
@@ -107,7 +110,13 @@ func (a *agg) addViol(v Violation, r workResult) {
 		f = &found{v: v, cfg: r.Cfg, trace: r.Res.Trace, hash: r.Res.Hash}
 		a.viols[k] = f
 	} else if len(r.Res.Trace) < len(f.trace) && len(r.Res.Trace) > 0 {
+		old := &found{v: f.v, cfg: f.cfg, trace: f.trace, hash: f.hash}
 		f.v, f.cfg, f.trace, f.hash = v, r.Cfg, r.Res.Trace, r.Res.Hash
+		if len(f.alts) < 3 {
+			f.alts = append(f.alts, old)
+		}
+	} else if len(f.alts) < 3 && len(r.Res.Trace) > 0 {
+		f.alts = append(f.alts, &found{v: v, cfg: r.Cfg, trace: r.Res.Trace, hash: r.Res.Hash})
 	}
 	f.count++
 }
@@ -318,6 +327,14 @@ func check(prop, tier string, opts map[string]string) int {
 			continue
 		}
 		path, ok := minimiseAndWrite(prop, f)
+		for _, alt := range f.alts {
+			if ok {
+				break
+			}
+			fmt.Fprintf(os.Stderr, "runner: a run with violation %s did not reproduce from its trace; trying another one\n", k)
+			alt.count = f.count
+			path, ok = minimiseAndWrite(prop, alt)
+		}
 		if !ok {
 			fmt.Fprintf(os.Stderr, "runner: violation %s did not reproduce from its trace (REPLAY-DIVERGED): %s\n", k, f.v.Msg)
 			trouble = true
